@@ -41,19 +41,17 @@ type CoreExit struct {
 
 // CoreFlow is the result for one specialisation.
 type CoreFlow struct {
-	MM       *core.MapModel
-	Spec     core.Spec
-	Name     string
-	Exits    []CoreExit
-	Findings []core.Finding[CS]
-	M        *core.Machine[CS]
-	FnCalls  []ssa.CallInstruction // user-function call sites in block order
-	TableVal ssa.Value
-	LoadCall *ssa.Call
+	MM              *core.MapModel
+	Spec            core.Spec
+	Name            string
+	Exits           []CoreExit
+	Findings        []core.Finding[CS]
+	M               *core.Machine[CS]
+	FnCalls         []ssa.CallInstruction // user-function call sites in block order
+	TableVal        ssa.Value
+	LoadCall        *ssa.Call
 	NFnCallsReached int
 }
-
-var coreFlowCache = map[string]*CoreFlow{}
 
 // flagTest recognises a test of the resize flag: call of the in-progress helper or a comparison of an
 // atomic load of the flag with a constant. resizingOnTrue tells which edge means "resize in progress".
@@ -255,12 +253,12 @@ func isZeroConst(c *ssa.Const) bool {
 // coreFlow runs the compute-core automaton for one specialisation.
 func coreFlow(r *Run, mm *core.MapModel, sp core.Spec) *CoreFlow {
 	f := mm.Core
-	key := fmt.Sprintf("%p/%s%s", r, mm.Name, sp.String(f))
-	if cf, ok := coreFlowCache[key]; ok {
+	key := fmt.Sprintf("%s%s", mm.Name, sp.String(f))
+	if cf, ok := r.cfMemo[key]; ok {
 		return cf
 	}
 	cf := &CoreFlow{MM: mm, Spec: sp, Name: fn(f) + sp.String(f)}
-	coreFlowCache[key] = cf
+	r.cfMemo[key] = cf
 	// user function parameter
 	var fnParam *ssa.Parameter
 	for _, p := range f.Params {
